@@ -663,10 +663,10 @@ Section Sim.
     - sbind sim_get_pos. intros e e' <-. apply sim_throw.
   Qed.
 
-  Lemma sim_abs_based : forall p0 pai i i', RI i i' ->
-    simM kv_sim (abs_based d F p0 pai i) (abs_based d' F p0 pai i').
+  Lemma sim_abs_based : forall delim p0 pai i i', In delim nonletter_consts -> RI i i' ->
+    simM kv_sim (abs_based d F delim p0 pai i) (abs_based d' F delim p0 pai i').
   Proof.
-    intros p0 pai i i' HI. unfold abs_based. eapply sim_bind; [apply sim_of_result; exact HI|].
+    intros delim p0 pai i i' HDl HI. unfold abs_based. eapply sim_bind; [apply sim_of_result; exact HI|].
     intros [base bt] [base' bt'] [E HBT]. cbn [fst snd] in E, HBT. subst base'.
     sbind sim_skip. intros _ _ _.
     eapply sim_bind; [apply sim_try; apply sim_parse_integer|]. intros bres bres' HBR.
@@ -675,16 +675,16 @@ Section Sim.
     - destruct (opt_is op 46); [|apply sim_ret; exact I].
       sbind sim_skip. intros _ _ _. eapply sim_bind; [apply sim_try; apply sim_parse_integer|].
       intros r r' HR. apply sim_ret. exact HR.
-    - intros fres fres' HFR. sbind sim_peek. intros op2 op2' HOP2. rewrite (opt_is_sim _ _ 35 HOP2) by inl 0.
-      destruct (opt_is op2 35).
+    - intros fres fres' HFR. sbind sim_peek. intros op2 op2' HOP2. rewrite (opt_is_sim _ _ delim HOP2 HDl).
+      destruct (opt_is op2 delim).
       + sbind sim_skip. intros _ _ _. eapply sim_bind; [apply sim_of_result; exact HBR|].
         intros [iv it] [iv' it'] [E HIT]. cbn [fst snd] in E, HIT. subst iv'.
         eapply sim_bind with (R := osim lsim).
         * destruct fres as [r|], fres' as [r'|]; cbn in HFR; try contradiction; [|apply sim_ret; exact I].
           eapply sim_bind; [apply sim_of_result; exact HFR|]. intros [fv ft] [fv' ft'] [_ HFT]. apply sim_ret. exact HFT.
         * intros ftxt ftxt' HFT.
-          assert (HTX : lsim (bt ++ [35] ++ it ++ match ftxt with Some ft => [46] ++ ft | None => [] end ++ [35])
-                             (bt' ++ [35] ++ it' ++ match ftxt' with Some ft => [46] ++ ft | None => [] end ++ [35])).
+          assert (HTX : lsim (bt ++ [delim] ++ it ++ match ftxt with Some ft => [46] ++ ft | None => [] end ++ [delim])
+                             (bt' ++ [delim] ++ it' ++ match ftxt' with Some ft => [46] ++ ft | None => [] end ++ [delim])).
           { apply lsim_app; [exact HBT|]. apply lsim_app; [apply lsim_refl|]. apply lsim_app; [exact HIT|].
             apply lsim_app; [|apply lsim_refl].
             destruct ftxt, ftxt'; cbn in HFT; try contradiction; [|constructor].
@@ -696,10 +696,10 @@ Section Sim.
              rewrite (cs_is_e _ _ HOP3). destruct (is_e c); [|apply sim_ret; exact I].
              sbind sim_skip. intros _ _ _. sbind sim_parse_exponent. intros x x' HX. apply sim_ret. cbn. auto.
           -- intros oexp oexp' HOE.
-             assert (HTX2 : lsim (match oexp with Some (c, (_, _, et)) => (bt ++ [35] ++ it ++ match ftxt with Some ft => [46] ++ ft | None => [] end ++ [35]) ++ [c] ++ et
-                                               | None => bt ++ [35] ++ it ++ match ftxt with Some ft => [46] ++ ft | None => [] end ++ [35] end)
-                                 (match oexp' with Some (c, (_, _, et)) => (bt' ++ [35] ++ it' ++ match ftxt' with Some ft => [46] ++ ft | None => [] end ++ [35]) ++ [c] ++ et
-                                               | None => bt' ++ [35] ++ it' ++ match ftxt' with Some ft => [46] ++ ft | None => [] end ++ [35] end)).
+             assert (HTX2 : lsim (match oexp with Some (c, (_, _, et)) => (bt ++ [delim] ++ it ++ match ftxt with Some ft => [46] ++ ft | None => [] end ++ [delim]) ++ [c] ++ et
+                                               | None => bt ++ [delim] ++ it ++ match ftxt with Some ft => [46] ++ ft | None => [] end ++ [delim] end)
+                                 (match oexp' with Some (c, (_, _, et)) => (bt' ++ [delim] ++ it' ++ match ftxt' with Some ft => [46] ++ ft | None => [] end ++ [delim]) ++ [c] ++ et
+                                               | None => bt' ++ [delim] ++ it' ++ match ftxt' with Some ft => [46] ++ ft | None => [] end ++ [delim] end)).
              { destruct oexp as [[c [[n m] et]]|], oexp' as [[c' [[n' m'] et']]|]; cbn in HOE; try contradiction; [|exact HTX].
                destruct HOE as [HC [_ [_ HE]]]. apply lsim_app; [exact HTX|]. apply lsim_app; [constructor; [exact HC|constructor]|exact HE]. }
              destruct ftxt as [ft|], ftxt' as [ft'|]; cbn in HFT; try contradiction.
@@ -713,6 +713,16 @@ Section Sim.
       + sbind sim_get_pos. intros e e' <-. apply sim_throw.
   Qed.
 
+  Lemma sim_colon_starts_based_literal : simM eq (colon_starts_based_literal d) (colon_starts_based_literal d').
+  Proof.
+    assert (L : simM (sum_rel (osim csim) eq) (colon_lookahead d) (colon_lookahead d')).
+    { unfold colon_lookahead. sbind sim_skip. intros _ _ _. apply sim_try. apply sim_peek. }
+    intros st. unfold colon_starts_based_literal. specialize (L st).
+    destruct (colon_lookahead d st) as [[[[n|]|e]|e|a] s1]; destruct (colon_lookahead d' st) as [[[[n'|]|e']|e'|a'] s2];
+      destruct L as [ES H]; cbn [fst snd] in ES, H; try contradiction; subst; split; cbn [fst snd]; auto.
+    cbn in H. rewrite (cs_alnum _ _ H). reflexivity.
+  Qed.
+
   Lemma sim_parse_abstract_literal : simM kv_sim (parse_abstract_literal d F) (parse_abstract_literal d' F).
   Proof.
     unfold parse_abstract_literal. sbind sim_get_state. intros st0 st0' <-.
@@ -720,7 +730,10 @@ Section Sim.
     sbind sim_get_pos. intros pai pai' <-. sbind sim_peek_lowercase. intros [c|] o' <-; [|apply sim_abs_plain; exact HI].
     destruct (c =? 46); [apply sim_abs_real_gen; exact HI|].
     destruct (c =? 101); [apply sim_abs_int_exp; exact HI|].
-    destruct (c =? 35); [apply sim_abs_based; exact HI|].
+    destruct (c =? 35); [apply sim_abs_based; [inl 0|exact HI]|].
+    destruct (c =? 58).
+    { sbind sim_colon_starts_based_literal. intros b b' <-.
+      destruct b; [apply sim_abs_based; [inl 0|exact HI]|apply sim_abs_plain; exact HI]. }
     destruct (is_bs_letter c); [apply sim_abs_bit_string; exact HI|apply sim_abs_plain; exact HI].
   Qed.
 
